@@ -37,10 +37,10 @@ func gen(n, pattern int) []hashing.Digest {
 		case 1, 2:
 			ds[k] = oneSymbolicByte(name, symPos)
 		default:
-			if k > 0 && rt.Choose(fmt.Sprintf("near%d", k), 2) == 1 {
+			if rt.Choose(fmt.Sprintf("near%d", k), 2) == 1 {
 				ds[k] = oneSymbolicByte(name, symPos)
 			} else {
-				ds[k] = models.PrefixedDigest(name, bits/8, 0x5a+byte(k), 0, 0)
+				ds[k] = models.PrefixedDigest(name, bits/8, 0x60+byte(k), 0, 0)
 			}
 		}
 	}
